@@ -68,7 +68,7 @@ func main() {
 	r.Rule("W1: distinct (TTL-sign configuration, model state of every name before the operation, operation) triples reached by the exhaustive explorer; " +
 		"W2: distinct recorded concurrent histories (hash of the multiset of operations-with-results and the real-time partial order of their call/return intervals) " +
 		"that contain at least one pair of truly overlapping conflicting operations (different goroutines, same name, intervals intersect, one of them changed the table). " +
-		"exhaustive=true refers to W1 only: all sequences over the 29-operation alphabet (2 names x {unique,group} x 3 addresses) to the stated depth under all 4 TTL-sign configurations (and the 15-operation one-name alphabet to its depth in thorough)")
+		"exhaustive=true refers to W1 only: all sequences over the 29-operation alphabet (2 names x {unique,group} x 3 addresses) to depth 3 (quick) / 4 (thorough) under all 4 TTL-sign configurations, and over the 15-operation one-name alphabet to depth 4 / 5 with every check after every step plus depth 5 / 6 with the full checks after the last step (w1_configurations lists what was run)")
 	r.Assume(
 		"TTLs are +1h or -1h and fixed per name within a history, so expiry is decided by sign and never by timing",
 		"not demanded: whether a unique name re-registered as unique by its current owner answers nil or conflict (state must be unchanged); the order of owners in a result; what QueryName returns next to an error",
@@ -135,7 +135,6 @@ func main() {
 	}
 	r.Finish()
 }
-
 
 // runChild re-executes this binary in worker mode and gathers what it wrote.
 func runChild(self, work, mode string, r *mon.Run) (res *childResult, viols []violRec, inconclusive string) {
@@ -224,7 +223,7 @@ func runChild(self, work, mode string, r *mon.Run) (res *childResult, viols []vi
 			frame = "no-library-frame"
 		}
 		workload := map[string]string{"seq": "W1", "conc": "W2"}[mode]
-		viols = append(viols, violRec{Key: workload + ":" + kind + ":" + cls + ":" + frame,
+		viols = append(viols, violRec{Key: workload + ":" + kind + ":" + cls + ":" + keyFrame(frame),
 			What: fmt.Sprintf("the %s worker process died: %s: %s (outermost library frame %s)", workload, kind2hdr(kind), msg, frame),
 			Case: map[string]any{"workload": workload, "stderr_head": head}, N: 1})
 		return nil, viols, ""
@@ -310,16 +309,18 @@ func childSeq(r *mon.Run, out *childOut) {
 	for i := range workers {
 		workers[i] = &seqWorker{trans: map[uint32]struct{}{}, viols: map[string]*witness{}}
 	}
-	depth2 := r.Pick(3, 4)
+	// two names: depth 3 (quick) / 4 (thorough), every check after every step, under each
+	// of the 4 TTL-sign configurations; one name: depth 4 / 5 likewise, and one level
+	// deeper (5 / 6) with the full checks after the last step only
 	var cfgs []seqCfg
 	for _, e0 := range []bool{false, true} {
 		for _, e1 := range []bool{false, true} {
-			cfgs = append(cfgs, seqCfg{NNames: 2, Expiring: [2]bool{e0, e1}, Depth: depth2})
+			cfgs = append(cfgs, seqCfg{NNames: 2, Expiring: [2]bool{e0, e1}, Depth: r.Pick(3, 4)})
 		}
 	}
-	depth1 := r.Pick(5, 6)
 	for _, e0 := range []bool{false, true} {
-		cfgs = append(cfgs, seqCfg{NNames: 1, Expiring: [2]bool{e0, false}, Depth: depth1})
+		cfgs = append(cfgs, seqCfg{NNames: 1, Expiring: [2]bool{e0, false}, Depth: r.Pick(4, 5)})
+		cfgs = append(cfgs, seqCfg{NNames: 1, Expiring: [2]bool{e0, false}, Depth: r.Pick(5, 6), Light: true})
 	}
 	var cfgNames []string
 	for _, cfg := range cfgs {
